@@ -745,3 +745,18 @@ Proof.
 Qed.
 
 End Proofs.
+
+(* outside the recorded class (no cancelled command whose plan then receives None) the monitor accepts without any
+   reported deviation: every value sent is the recorded response *)
+Theorem responses_delivered (P : Type) (presume : P -> input -> outcome P) (plan_of : nat -> P)
+        (D : Type) (dev : D -> nat -> devmeth -> D * devres) (pid : nat) :
+  pid < 1000 -> (forall p i, presume p i <> Raised ECancelled) ->
+  forall d paus stag rec evs,
+    let tr := snd (run_tr P presume plan_of D dev (init P D d paus stag rec) evs) in
+    ~ In (OBad 1) (flat_map snd tr) -> has_flag (chk pid mon0 tr) = false -> chk pid mon0 tr = Some [].
+Proof.
+  intros Hpid Hnc d paus stag rec evs tr Hnb Hf.
+  destruct (inputs_explained P presume plan_of D dev pid Hpid Hnc d paus stag rec evs Hnb) as (fl & Hc).
+  fold tr in Hc. rewrite Hc in *. destruct fl; [reflexivity|discriminate].
+Qed.
+
